@@ -133,8 +133,26 @@ def _pieces_and_clusters(ctx, rep):
            'the cluster search is skipped for short remainders: a two-codepoint cluster at the end of a string is split and its accent dropped', ctx.where(su))
 
 
+def _defaults_convert_every_byte(ctx, rep):
+    """With default arguments every byte is converted through the codepage table: the set of bytes that are passed through
+    unconverted (`preserve`) is empty unless a caller names one, so that bytes -> characters -> bytes is the identity on
+    the repertoire for the control-position glyphs too."""
+    n = 0
+    for spec in ('Codepage.bytes_to_unicode', 'Codepage.get_converter', 'Codepage.wrap_output_stream', 'OutputStreamWrapper.__init__', 'Converter.__init__'):
+        fn = ctx.fn(CP + ':' + spec)
+        args = fn.args.args
+        defaults = dict(zip([a.arg for a in args[len(args) - len(fn.args.defaults):]], fn.args.defaults))
+        if 'preserve' in defaults:
+            n += 1
+            v = ctx.fold(defaults['preserve'])
+            rep.ob('defaults.no-byte-preserved', '%s: preserve defaults to the empty set' % spec, v in ((), b'', [], set(), frozenset()) and not isinstance(v, str) or v == (),
+                   'default preserve=%s: those bytes come back as raw control characters, not as the glyphs of the codepage' % norm(defaults['preserve']), ctx.where(fn))
+    rep.floor('defaults.no-byte-preserved', n, 4, 'functions with a preserve default')
+
+
 def check(ctx, rep):
     _held_byte_typestate(ctx, rep)
+    _defaults_convert_every_byte(ctx, rep)
     _pieces_and_clusters(ctx, rep)
     ini = ctx.fn(CP + ':Codepage.__init__')
     # table keys and looked-up text are brought to the same Unicode normal form: the lookup side normalises
@@ -215,6 +233,8 @@ def variants(ctx):
         return lambda tree: f(mu.find_def(tree, f_name))
 
     return [
+        mu.Variant('control-bytes-preserved-by-default', 'break', CP,
+                   lambda tree: _set_default(mu.find_def(tree, 'Codepage.bytes_to_unicode'), 'preserve', 'CONTROL'), expect='defaults.no-byte-preserved'),
         Va('empty-flushing-chunk-ignored', 'break', CP,
            in_fn('Converter._mark', lambda fn: mu.replace_expr(fn, lambda n: isinstance(n, ast.UnaryOp) and norm(n) == 'not self._dbcs', 'not self._dbcs or not s', count=1)), expect='stream.stateless'),
         Va('cluster-search-needs-three-codepoints', 'break', CP, in_fn('Codepage._split_unicode', _guard_clusters), expect='clusters.matched'),
@@ -294,3 +314,13 @@ def _guard_clusters(fn):
                         b[i] = ast.If(test=ast.parse('len(ucs) > 2', mode='eval').body, body=[st], orelse=[])
                         return True
     return False
+
+
+def _set_default(fn, name, text):
+    args = fn.args.args
+    names = [a.arg for a in args[len(args) - len(fn.args.defaults):]]
+    if name not in names:
+        return False
+    fn.args.defaults[names.index(name)] = ast.parse(text, mode='eval').body
+    return True
+
